@@ -364,6 +364,14 @@ def overlap_cases(rng, n_rand):
         d = host + (7000).to_bytes(2, "big") + bytes([0x41] * 48)
         later = [(bytes([0, 0, 0, 1, 8, 8, 8, 8, 0, 53]) + bytes([0x42 + i] * 48)).hex() for i in range(4)]
         out.append({"k": "relay", "d": d.hex(), "later": later, "rounds": 8})
+    # single LARGE datagrams through the real relay (datagram size is an input): the forwarded payload must be the DATA
+    # bytes, byte for byte, up to the largest UDP datagram (65507 bytes incl. header over loopback)
+    for total in (1400, 4096, 16374, 16375, 16384, 16385, 20000, 32768, 40000, 65497, 65507):
+        hdr = bytes([0, 0, 0, 1, 1, 2, 3, 4]) + (7000).to_bytes(2, "big")
+        d = hdr + bytes((i * 7 + i // 251) % 256 for i in range(total - len(hdr)))
+        out.append({"k": "relay", "d": d.hex(), "later": [], "rounds": 2})
+    d = bytes([0, 0, 0, 3, 255]) + bytes([0x61] * 255) + (7000).to_bytes(2, "big")
+    out.append({"k": "relay", "d": (d + bytes(i % 253 for i in range(65507 - len(d)))).hex(), "later": [], "rounds": 1})
     return out
 
 
